@@ -77,6 +77,16 @@ func runCmd(dir string, timeout time.Duration, name string, args ...string) (str
 	}
 }
 
+// globalSeed is VERIF_SEED (the same in every shard, unlike ev.Seed()).
+func globalSeed() uint64 {
+	var n uint64
+	fmt.Sscanf(os.Getenv("VERIF_SEED"), "%d", &n)
+	if n == 0 {
+		n = 1
+	}
+	return n
+}
+
 func writeFiles(dir string, files map[string]string) error {
 	for n, c := range files {
 		p := filepath.Join(dir, n)
